@@ -13,7 +13,7 @@ LEVEL = "exploration"
 WORKERS = {"quick": 8, "thorough": 16}
 BUDGET = {"quick": 60, "thorough": 420}
 MIN_NONTRIVIAL = {"quick": 1500, "thorough": 40000}
-REQUIRED_HOOKS = ["celpy.celtypes.logical_and", "celpy.celtypes.logical_or", "celpy.celtypes.logical_not", "celpy.celtypes.logical_condition", "evaluate:I", "evaluate:C", "direct"]
+REQUIRED_HOOKS = ["program-reuse", "celpy.celtypes.logical_and", "celpy.celtypes.logical_or", "celpy.celtypes.logical_not", "celpy.celtypes.logical_condition", "evaluate:I", "evaluate:C", "direct"]
 RULE = (
     "Programs: every expression shape over !, &&, ||, ?: with at most 2 (quick) / 3 (thorough) operators and leaves drawn from the outcome classes "
     "{true, false, error} (plus a non-boolean leaf where the statement decides), each error leaf realised in rotation by 17 different failing "
@@ -349,6 +349,122 @@ def direct_grid(acc, mon):
             acc.cell("direct", fn, "".join(combo))
 
 
+# ---------------------------------------------------------------- one program, many activations
+# The truth tables must also hold when ONE program object is evaluated again and again with other bindings (the documented
+# way to use a program): every leaf is a variable -- b<i> (a bool) or 1 / z<i> > 0 (true, false or an evaluation error,
+# depending on the int bound to z<i>) -- in the plain and in the root-scoped spelling (.b0, .z0).
+def tv(skel, val):
+    """Three-valued reference: 'T' | 'F' | 'E' for a skeleton whose leaves are variable indexes."""
+    k = skel[0]
+    if k == "leaf":
+        return val[skel[1]]
+    if k == "!":
+        a = tv(skel[1], val)
+        return "E" if a == "E" else ("F" if a == "T" else "T")
+    if k == "&&":
+        a, b = tv(skel[1], val), tv(skel[2], val)
+        return "F" if "F" in (a, b) else ("T" if a == b == "T" else "E")
+    if k == "||":
+        a, b = tv(skel[1], val), tv(skel[2], val)
+        return "T" if "T" in (a, b) else ("F" if a == b == "F" else "E")
+    c = tv(skel[1], val)
+    if c == "E":
+        return "E"
+    return tv(skel[2], val) if c == "T" else tv(skel[3], val)
+
+
+def number_leaves(skel, counter):
+    k = skel[0]
+    if k == "leaf":
+        counter[0] += 1
+        return ("leaf", counter[0] - 1)
+    return (k,) + tuple(number_leaves(x, counter) for x in skel[1:])
+
+
+def var_text(skel, kinds, dots, parent=None):
+    k = skel[0]
+    if k == "leaf":
+        i = skel[1]
+        d = "." if dots[i] else ""
+        return f"{d}b{i}" if kinds[i] == "b" else f"(1 / {d}z{i} > 0)"
+    if k == "!":
+        return "!(" + var_text(skel[1], kinds, dots) + ")"
+    if k in ("&&", "||"):
+        a = var_text(skel[1], kinds, dots, k)
+        b = var_text(skel[2], kinds, dots)
+        if skel[1][0] in ("&&", "||", "?:") and skel[1][0] != k:
+            a = "(" + a + ")"
+        if skel[2][0] in ("&&", "||", "?:"):
+            b = "(" + b + ")"
+        return f"{a} {k} {b}"
+    return "(" + var_text(skel[1], kinds, dots) + " ? " + var_text(skel[2], kinds, dots) + " : " + var_text(skel[3], kinds, dots) + ")"
+
+
+def ops_of(skel):
+    if skel[0] == "leaf":
+        return ""
+    return skel[0] + "(" + ",".join(ops_of(x) or "v" for x in skel[1:]) + ")"
+
+
+def reuse_case(acc, rnd, skel0):
+    c = core.celpy()
+    cnt = [0]
+    skel = number_leaves(skel0, cnt)
+    nl = cnt[0]
+    if nl == 0 or nl > 4:
+        return
+    kinds = [rnd.choice("bz") for _ in range(nl)]
+    dots = [rnd.random() < 0.4 for _ in range(nl)]
+    src = var_text(skel, kinds, dots)
+    assigns = list(itertools.product("TFE", repeat=nl))
+    assigns = [a for a in assigns if all(v != "E" or kinds[i] == "z" for i, v in enumerate(a))]
+    rnd.shuffle(assigns)
+    assigns = assigns[:12]
+
+    def bind(a):
+        d = {}
+        for i, v in enumerate(a):
+            if kinds[i] == "b":
+                d[f"b{i}"] = ("bool", v == "T")
+            else:
+                d[f"z{i}"] = ("int", {"T": 1, "F": -1, "E": 0}[v])
+        return d
+
+    for r in "IC":
+        try:
+            env = c.Environment(runner_class=core.runner_class(r))
+            prog = env.program(env.compile(src))
+        except Exception as ex:
+            acc.violation(f"{r} program-reuse construction X:{type(ex).__name__}", f"{src!r}: {type(ex).__name__} {core._msg(ex)}", {"kind": "reuse", "src": src, "runner": r, "sequence": []})
+            continue
+        seq = []
+        for step, a in enumerate(assigns):
+            b = bind(a)
+            seq.append(MV.enc_env(b))
+            try:
+                out = ["V", core.canon(prog.evaluate(MV.cel_env(b)))]
+            except c.CELEvalError:
+                out = ["E"]
+            except Exception as ex:
+                out = ["X", "evaluate", type(ex).__name__, core._left_from(ex), core._msg(ex)]
+            want = tv(skel, a)
+            acc.hook("evaluate:" + r)
+            acc.hook("program-reuse")
+            acc.evaluations += 1
+            got = obs_class(out)
+            acc.cell("reuse", r, "step%d" % min(step, 3), want, got)
+            if step:
+                acc.nt([src, r, step, list(a)])
+            if got != want:
+                fresh = obs_class(core.api_eval(r, src, MV.cel_env(b)))
+                acc.violation(
+                    f"{r} program-reuse {'stale-outcome-of-an-earlier-evaluation' if fresh == want else 'wrong-also-in-a-fresh-program'} {ops_of(skel)} spelling={'root-scoped' if any(dots) else 'plain'} obs={got} exp={want}",
+                    f"{'interpreted' if r == 'I' else 'compiled'}: evaluation #{step + 1} of one program {src!r} with {b} gave {got}, the truth table gives {want}; a fresh program gives {fresh}",
+                    {"kind": "reuse", "src": src, "runner": r, "sequence": seq, "expected": want},
+                )
+                break
+
+
 def run(ctx):
     acc = ctx.acc
     rnd = ctx.rnd
@@ -401,6 +517,18 @@ def run(ctx):
     acc.exhaustive.append(f"all()/exists() over every list of {{false,true,error}} outcomes up to length {maxlen}")
     acc.sample({"program": LIST_REAL[0][0].format(recv="[1, 2, 0]", m="all")})
 
+    # one program object, many activations
+    for nops in (1, 2):
+        for skel in shapes(nops, "v"):
+            i += 1
+            if ctx.mine(i):
+                reuse_case(acc, rnd, skel)
+    for _ in range(ctx.scale(400, 20000)):
+        if ctx.expired():
+            break
+        reuse_case(acc, rnd, rand_skel(rnd, rnd.randint(2, 5)))
+    acc.exhaustive.append("program reuse: every shape with <= 2 operators over variable leaves, one program per runner evaluated under up to 12 assignments")
+
     # random larger shapes and longer lists
     n = ctx.scale(2500, 120000)
     for j in range(n):
@@ -430,7 +558,25 @@ def rand_skel(rnd, nops):
     return ("?:", rand_skel(rnd, i), rand_skel(rnd, j), rand_skel(rnd, nops - 1 - i - j))
 
 
+def replay_reuse(case):
+    c = core.celpy()
+    env = c.Environment(runner_class=core.runner_class(case["runner"]))
+    prog = env.program(env.compile(case["src"]))
+    outs = []
+    for e in case["sequence"]:
+        try:
+            outs.append(obs_class(["V", core.canon(prog.evaluate(MV.cel_env(MV.dec_env(e))))]))
+        except c.CELEvalError:
+            outs.append("E")
+        except Exception as ex:
+            outs.append("X:" + type(ex).__name__)
+    ok = bool(outs) and outs[-1] == case.get("expected")
+    return ok, f"{case['src']!r} under {case['runner']}: outcomes along the recorded sequence {outs}; expected last {case.get('expected')}"
+
+
 def replay(case):
+    if case.get("kind") == "reuse":
+        return replay_reuse(case)
     core.celpy()
     b = MV.cel_env(BINDINGS)
     if case["kind"] == "direct":
